@@ -6,8 +6,7 @@
    A line is a memory [list N]: the bytes of the malloc'ed line INCLUDING its terminating NUL
    (istream_get_line always NUL-terminates).  C pointers are indices; every access is bget/bset.
    canonicalize_name (C18) is used through its proved model.
-   decode_filename follows the code as it is (finding F08 of C17: the unquoted name is not
-   re-terminated); this does not matter for safety. *)
+   decode_filename follows the repaired code (the unquoted name is re-terminated: "*dst = 0"). *)
 From Coq Require Import List NArith ZArith Bool.
 From SqfsV Require Import C07.Res C07.GenC07 C07.NumModel C18.CanonModel.
 Import ListNotations.
@@ -217,15 +216,14 @@ Definition decode_flags (m : list N) : res (list N * list sflag) :=
     end
   end.
 
-(* decode_filename: the in-place unquoting; returns the memory and whether the quoted path was taken *)
-Fixpoint unquote_go (fuel : nat) (m : list N) (src dst : N) : res (list N * N) :=
-  (* returns memory and src behind the closing quote *)
+(* decode_filename: the in-place unquoting; returns the memory, src behind the closing quote, dst *)
+Fixpoint unquote_go (fuel : nat) (m : list N) (src dst : N) : res (list N * N * N) :=
   match fuel with
   | O => OutOfFuel
   | S f =>
     do c <- bget m src;
     if c =? 0 then Err e_sort else
-    if c =? 34 then Ok (m, src + 1) else
+    if c =? 34 then Ok (m, src + 1, dst) else
     if c =? 92 then
       do c1 <- bget m (src + 1);
       if (c1 =? 92) || (c1 =? 34) then
@@ -239,9 +237,10 @@ Definition decode_filename (m : list N) : res (list N) :=
   do m1 <-
     (if c0 =? 34 then
        do r <- unquote_go (S (length m)) m 1 0;
-       let (m1, src) := r in
+       let '(m1, src, dst) := r in
        do c <- bget m1 src;
-       if negb (c =? 0) then Err e_sort else Ok m1
+       if negb (c =? 0) then Err e_sort else
+       bset m1 dst 0                      (* "*dst = '\0'" *)
      else Ok m);
   do name <- cstr_at m1 0;
   match canon_result name with
